@@ -887,8 +887,10 @@ def small_rewrites(t):
             if n == "builtins.len" and len(t[2]) == 1 and not t[3] and is_const(strip(t[2][0])) and isinstance(strip(t[2][0])[2], (str, tuple)):
                 return const(len(strip(t[2][0])[2]))
             if n == "builtins.int" and len(t[2]) == 1 and not t[3]:
-                # int(<rapidfuzz distance>) : the distances are integers already
+                # int(len(x)) : a length is an int already;  int(<rapidfuzz distance>) : the distances are integers already
                 a_ = strip(t[2][0])
+                if head(a_) == "call" and strip(a_[1]) == ("glob", "builtins.len"):
+                    return t[2][0]
                 if head(a_) == "call" and head(strip(a_[1])) == "glob" and strip(a_[1])[1].startswith("rapidfuzz.distance.") and strip(a_[1])[1].endswith(".distance"):
                     return t[2][0]
             if n == "operator.itemgetter" and len(t[2]) == 1 and not t[3] and is_const(strip(t[2][0])):
